@@ -18,8 +18,9 @@ the executable side condition `rtOK o vf T v`:
   the theorem shows that such a value is the zero value up to `norm`; a field that is never written
   or never read back (unexported, `json:"-"`) holds a zero value;
 * NOT covered (`rtOK` is `false`; the round trip of these is still only run by the harness):
-  `interface{}` slots, `[]byte`, embedded fields, the `,string` tag option in force, `OmitNil` /
-  `OmitEmpty` (outside the encoder model), `NestEmbed` (finding `C16-nest-embed`).
+  `interface{}` slots, embedded fields, the `,string` tag option in force on a FLOAT field (on bool and
+  integer fields it is covered: `atoi_intText`, `asStr_tagHasString`), a `[]byte` unless `BytesAsArray`,
+  `OmitNil` / `OmitEmpty` (outside the encoder model), `NestEmbed` (finding `C16-nest-embed`).
 
 The theorems are about the MODELS of both halves (`Reflect/Model.lean`: `encode .alt Dev.current` =
 `alt.Decompose`; `Reflect/Registry.lean`: `recompose` = `alt.Recompose`), each tied to the Go code by
@@ -192,12 +193,17 @@ example :
 spellings of the Go field name only when the tree has no member under it; `structOK` is stated over the
 names the decoder tries (`triedKeys`), in that order. -/
 
-/-- the source has the lookups of the model, in the model's order (regenerated by
-`tools/extract/reflect.go`; on a source that tries the Go-name spellings first, or moves the lookups
-into a helper — seeded C16-m8 — the regenerated list differs and this theorem fails) -/
+/-- the source has the lookups of the model, in the model's order, and the guard of the fallback closure
+(regenerated by `tools/extract/reflect.go`: every `vm[…]` / `im[…]`, the condition that mentions
+`claimed`, and the calls of `other`, in source order): the index key first; then, through `other` —
+which refuses a name that is the key of another index entry (`claimed && name != k`, /repo 1029e85) —
+the Go name, its first letter lowered, all lowered. On a source that tries the Go-name spellings first
+or moves the lookups into a helper (seeded C16-m8), or without the guard (before 1029e85), the
+regenerated list differs and this theorem fails. -/
 theorem lookup_order_in_source :
     Gen.Reflect.altRecompMemberLookups =
-      ["vm[k]", "vm[sf.Name]", "name[0] |= 0x20", "vm[string(name)]", "vm[strings.ToLower(string(name))]"] := by
+      ["im[k]", "vm[k]", "if:claimed && name != k", "im[name]", "vm[name]", "other(sf.Name)", "name[0] |= 0x20",
+       "other(string(name))", "other(strings.ToLower(string(name)))"] := by
   decide +kernel
 
 /-- `struct { Kind string `json:"type"`; Type int `json:"kind"` }`: each field's tag name spells the
@@ -210,24 +216,26 @@ gives the fields back unswapped; had `fieldDatum` tried the Go-name spellings fi
 for `Kind` ("Kind", "kind") would hit the member of `Type` -/
 example : rtOK (effOpts rtOpts) 4 swapT swapV = true ∧
     slotIs (recomposePure rtOpts.createKey swapT (encode .alt Dev.current rtOpts 4 4 swapT swapV)) swapV = true ∧
-    (fieldDatum [("kind".toUTF8.toList, .int 7), ("type".toUTF8.toList, .str [120])] "type".toUTF8.toList
+    (fieldDatum [] [("kind".toUTF8.toList, .int 7), ("type".toUTF8.toList, .str [120])] "type".toUTF8.toList
         ⟨"Kind".toUTF8.toList, [0], "type".toUTF8.toList⟩).map JV.render = some "S(78)" ∧
     (jvLookup [("kind".toUTF8.toList, JV.int 7), ("type".toUTF8.toList, .str [120])]
         (lowerFirst "Kind".toUTF8.toList)).map JV.render = some "I(7)" := by
   decide +kernel
 
-/-- the same names with `omitempty` on `Kind` are OUTSIDE: an empty `Kind` is not written, the lookups
-fall through to "kind" and find the member of `Type`; and without tags (the lower-case style) the
-type is outside too — the encoder writes `Kind` under "kind", the decoder files it under "type" -/
+/-- the same names with `omitempty` on `Kind` are INSIDE since /repo 1029e85 (an empty `Kind` is not
+written; the fallback spelling "kind" is the index key of `Type` and is no longer offered — `triedKeys`
+filters it out); without tags (the lower-case style) the type stays outside — the encoder writes `Kind`
+under "kind", the decoder files it under "type" -/
 example :
-    structOK (effOpts rtOpts) [(C15.fld "Kind" "type,omitempty", .str), (C15.fld "Type" "kind", .int 0)] = false ∧
+    structOK (effOpts rtOpts) [(C15.fld "Kind" "type,omitempty", .str), (C15.fld "Type" "kind", .int 0)] = true ∧
     rtOK rtOptsLow 4 swapT swapV = false := by
   decide +kernel
 
 /-! ## full strength
 
 The title clause of C16 as the property states it, on the models: for EVERY value of every type and
-every option set (of the encoder model). It is FALSE for the code as it is; `rtOK` is the named
+every option set (of the encoder model). It is FALSE for the code as it is (one live witness left: `[]byte` as text, C16-bytes-text; the second,
+C16-omitted-member-sibling-spelling, was repaired by /repo 1029e85); `rtOK` is the named
 fragment the partial theorems above are about. -/
 
 def C16_inverse_full : Prop :=
@@ -243,16 +251,26 @@ def slotOk : Slot → Bool
 def fallT : GoType := .struct [] [] [(C15.fld "Kind" "type,omitempty", .bool), (C15.fld "Type" "kind", .int 0)]
 def fallV : GoVal := .struct [.bool false, .int 7]
 
-/-- finding `C16-omitted-member-sibling-spelling` on the model (the model is faithful to the code here; the
-harness reproduces it on alt.Recompose and oj.Unmarshal): `Kind` is empty and dropped by `omitempty`,
-the decomposition is `{"kind":7}`, and recomp, finding no member "type", falls through to the
-spellings of the Go name and gives `Kind` the member of `Type` — an int into a bool: a panic, i.e. the
-error result of Recompose. The value is well typed, the struct is outside `structOK`. -/
-theorem omitted_member_sibling_spelling_witness :
+/-- finding `C16-omitted-member-sibling-spelling` (FIXED by /repo 1029e85) on the model of the lookups
+BEFORE the fix (`fieldDatumBefore`): `Kind` is empty and dropped by `omitempty`, the decomposition is
+`{"kind":7}`, and recomp, finding no member "type", fell through to the spellings of the Go name and
+gave `Kind` the member of `Type` — an int into a bool: the error result of Recompose / Unmarshal. -/
+theorem omitted_member_sibling_spelling_witness_before_1029e85 :
     hasType 4 fallT fallV = true ∧
     (encode .alt Dev.current rtOpts 4 4 fallT fallV).render = "{K(5e)S(-),K(6b696e64)I(7)}" ∧
-    slotOk (recomposePure rtOpts.createKey fallT (encode .alt Dev.current rtOpts 4 4 fallT fallV)) = false ∧
-    structOK (effOpts rtOpts) [(C15.fld "Kind" "type,omitempty", .bool), (C15.fld "Type" "kind", .int 0)] = false := by
+    (fieldDatumBefore [([94], .str []), ("kind".toUTF8.toList, .int 7)] "type".toUTF8.toList
+        ⟨"Kind".toUTF8.toList, [0], "type,omitempty".toUTF8.toList⟩).map JV.render = some "I(7)" ∧
+    slotOk (scalarSlot .bool (.int 7) (some ⟨"Kind".toUTF8.toList, [0], "type,omitempty".toUTF8.toList⟩)) = false := by
+  decide +kernel
+
+/-- the code as it is now (since 1029e85): "kind" is the key of another index entry and is not offered, the
+lookup for `Kind` finds nothing, and the value comes back; the struct is inside `structOK` -/
+theorem omitted_member_sibling_spelling_repaired :
+    (fieldDatum (indexFields [(C15.fld "Kind" "type,omitempty", .bool), (C15.fld "Type" "kind", .int 0)] 0)
+        [([94], .str []), ("kind".toUTF8.toList, .int 7)] "type".toUTF8.toList
+        ⟨"Kind".toUTF8.toList, [0], "type,omitempty".toUTF8.toList⟩).map JV.render = none ∧
+    slotIs (recomposePure rtOpts.createKey fallT (encode .alt Dev.current rtOpts 4 4 fallT fallV)) fallV = true ∧
+    rtOK (effOpts rtOpts) 4 fallT fallV = true := by
   decide +kernel
 
 /-- finding `C16-bytes-text`: a `[]byte` under `BytesAsString` is written as a string, which recomp
@@ -265,10 +283,22 @@ theorem bytes_text_witness :
 
 theorem C16_inverse_full_false : ¬ C16_inverse_full := by
   intro h
-  obtain ⟨v', hv, _⟩ := h rtOpts 4 4 fallT fallV rfl rfl rfl (by decide) (by decide) omitted_member_sibling_spelling_witness.1
-  have := omitted_member_sibling_spelling_witness.2.2.1
+  obtain ⟨v', hv, _⟩ := h rtOptsLow 4 4 (.struct [] [] [(C15.fld "Raw", .bytes)]) (.struct [.bytes [97]]) rfl rfl rfl
+    (by decide) (by decide) bytes_text_witness.1
+  have := bytes_text_witness.2
   rw [hv] at this
   cases this
+
+/-- the `,string` option in force on an integer and a bool field: `{"n":"-42","b":"true"}` comes back;
+on a float field it is outside -/
+example :
+    rtOK (effOpts rtOpts) 4 (.struct [] [] [(C15.fld "N" "n,string", .int 3), (C15.fld "B" "b,string", .bool)])
+      (.struct [.int (-42), .bool true]) = true ∧
+    slotIs (recomposePure rtOpts.createKey (.struct [] [] [(C15.fld "N" "n,string", .int 3), (C15.fld "B" "b,string", .bool)])
+      (encode .alt Dev.current rtOpts 4 4 (.struct [] [] [(C15.fld "N" "n,string", .int 3), (C15.fld "B" "b,string", .bool)])
+        (.struct [.int (-42), .bool true]))) (.struct [.int (-42), .bool true]) = true ∧
+    rtOK (effOpts rtOpts) 4 (.struct [] [] [(C15.fld "F" "f,string", .float false)]) (.struct [.flt [49]]) = false := by
+  decide +kernel
 
 /-- the side condition does exclude something: two fields that the lower-case style maps to one key -/
 example : structOK rtOptsLow [(C15.fld "AB", .int 0), (C15.fld "Ab", .int 0)] = false := by decide +kernel
